@@ -263,7 +263,16 @@ func (p *Prog) Pkg(path string) *packages.Package {
 
 // Obj looks up a package-level object.
 func (p *Prog) Obj(pkgPath, name string) types.Object {
+	p.loadSymSnapshot()
 	o := p.Pkg(pkgPath).Types.Scope().Lookup(name)
+	if o == nil {
+		for _, kind := range []string{"type", "func", "var"} {
+			if c := currentName(kind, pkgPath, name); c != name {
+				o = p.Pkg(pkgPath).Types.Scope().Lookup(c)
+				break
+			}
+		}
+	}
 	if o == nil {
 		anchorFail("%s.%s", pkgPath, name)
 	}
@@ -304,6 +313,13 @@ func (p *Prog) Field(pkgPath, typ, field string) *types.Var {
 			return st.Field(i)
 		}
 	}
+	if c := currentName("field", pkgPath, typ, field); c != field {
+		for i := 0; i < st.NumFields(); i++ {
+			if st.Field(i).Name() == c {
+				return st.Field(i)
+			}
+		}
+	}
 	anchorFail("field %s.%s.%s", pkgPath, typ, field)
 	return nil
 }
@@ -327,6 +343,19 @@ func (p *Prog) Tag(name string) int64 { return p.ConstInt(modPath, name) }
 // Method returns the *ssa.Function for a method of a named type (value or pointer receiver).
 func (p *Prog) Method(pkgPath, typ, name string) *ssa.Function {
 	n := p.Named(pkgPath, typ)
+	if c := currentName("method", pkgPath, typ, name); c != name {
+		if n.Obj().Pkg().Scope().Lookup(typ) != nil || true {
+			found := false
+			for _, T := range []types.Type{n, types.NewPointer(n)} {
+				if p.SSA.MethodSets.MethodSet(T).Lookup(n.Obj().Pkg(), name) != nil {
+					found = true
+				}
+			}
+			if !found {
+				name = c
+			}
+		}
+	}
 	for _, T := range []types.Type{n, types.NewPointer(n)} {
 		sel := p.SSA.MethodSets.MethodSet(T).Lookup(n.Obj().Pkg(), name)
 		if sel != nil {
@@ -359,7 +388,13 @@ func (p *Prog) Func(pkgPath, name string) *ssa.Function {
 	if sp == nil {
 		anchorFail("package %s", pkgPath)
 	}
+	p.loadSymSnapshot()
 	fn := sp.Func(name)
+	if fn == nil {
+		if c := currentName("func", pkgPath, name); c != name {
+			fn = sp.Func(c)
+		}
+	}
 	if fn == nil {
 		anchorFail("func %s.%s", pkgPath, name)
 	}
@@ -387,6 +422,15 @@ func FuncName(fn *ssa.Function) string {
 		return "<nil>"
 	}
 	s := fn.String()
+	if top := TopFunc(fn); top.Object() != nil {
+		if c := cn(top.Object()); c != top.Name() {
+			if i := strings.LastIndex(s, "."+top.Name()); i >= 0 {
+				s = s[:i] + "." + c + s[i+1+len(top.Name()):]
+			} else if strings.HasPrefix(s, top.Name()) {
+				s = c + s[len(top.Name()):]
+			}
+		}
+	}
 	s = strings.ReplaceAll(s, modPath+"/", "")
 	s = strings.ReplaceAll(s, modPath+".", "")
 	s = strings.ReplaceAll(s, modPath, "quickfix")
